@@ -569,6 +569,50 @@ static void check_message(tabs_t const *T, vf_rng *r, size_t n, unsigned dcls, u
     blk_free(B);
 }
 
+/* messages that contain their own running register: prefix | register after the prefix, serialised (either byte order, exact or with
+   one bit flipped) | 0..2w/8+3 zero bytes | tail.  "payload | crc | reserved = 0" records, residue checks over padded frames and a footer
+   {crc, 0} fed as its own piece are ordinary uses, and they are the inputs for which data XOR register vanishes over a whole word - a
+   relation random bytes meet with probability 2^-w per position (seeded change C17-J: a word-at-a-time loop that skips a round when
+   (data ^ register) | next word == 0 and so keeps the old register).  The expected register comes from the bit-serial reference. */
+static void check_embedded(tabs_t const *T, vf_rng *r, unsigned dcls)
+{
+    unsigned const w = T->w, wb = w / 8;
+    for (int o = 0; o < 2; ++o)
+    {
+        size_t const pre = (size_t)vf_below(r, 41), nz = (size_t)vf_below(r, 2 * wb + 4), tail = (size_t)vf_below(r, 21);
+        int const big = (int)vf_below(r, 2) ? !o : o; /* mostly the order in which this variant consumes a word: msb-first = big-endian */
+        int const flip = vf_chance(r, 1, 4) ? (int)vf_below(r, w) : -1;
+        size_t const n = pre + wb + nz + tail;
+        blk_t B = blk_new(n);
+        uint64_t const init = draw_init(r, w, (unsigned)vf_below(r, 4));
+        uint64_t run, got[2];
+        draw_bytes(r, B.p, pre, dcls);
+        run = ref_serial(w, o, T->poly, B.p, pre, init);
+        if (flip >= 0) { run ^= 1ULL << flip; }
+        for (unsigned k = 0; k < wb; ++k) { B.p[pre + k] = (uint8_t)(run >> (big ? 8 * (wb - 1 - k) : 8 * k)); }
+        memset(B.p + pre + wb, 0, nz);
+        draw_bytes(r, B.p + pre + wb + nz, tail, dcls + 1);
+        vf_log("crc%u: %zu bytes, then the %s register after them serialised %s-endian%s, then %zu zero bytes, then %zu more", w, pre, o ? "lsb-first" : "msb-first",
+               big ? "big" : "little", flip >= 0 ? " with one bit flipped" : "", nz, tail);
+        check_whole(T, B.p, n, init, got);
+        VF_COUNT("crc-message-containing-its-own-running-register");
+        /* ... and the same bytes with the register word starting a piece of its own (the running value carried in) */
+        {
+            size_t cut[2] = {pre, pre + wb + nz};
+            uint64_t const v = feed_pieces(T, o, B.p, n, cut, 2, init);
+            ++vf.evals;
+            if (v != got[o])
+            {
+                char key[96];
+                key_upd(key, sizeof(key), w, o, "register-word-as-own-piece-ne-whole");
+                vf_viol(key, "poly=0x%" PRIx64 " data[%zu]=%s value=0x%" PRIx64 " cut at %zu,%zu: pieces 0x%" PRIx64 " whole 0x%" PRIx64, T->poly, n, hexs(B.p, n), init,
+                        cut[0], cut[1], v, got[o]);
+            }
+        }
+        blk_free(B);
+    }
+}
+
 /* ------------------------------------------------------------ polynomials */
 static uint64_t const STD8[] = {0x07, 0x31, 0x1D, 0x9B, 0xD5, 0x2F, 0xA7, 0x00, 0x01, 0x80, 0xFF};
 static uint64_t const STD16[] = {0x1021, 0x8005, 0x3D65, 0x0589, 0x8BB7, 0xA097, 0xC867, 0x0000, 0x0001, 0x8000, 0xFFFF};
@@ -608,6 +652,7 @@ static void sweep_poly(vf_rng *r, unsigned w, uint64_t poly, unsigned i)
     tabs_t T;
     tabs_build(&T, w, poly);
     check_message(&T, r, (size_t)vf_below(r, 25), i, i >> 1, (i & 7) == 0 ? 4 : 0, (i & 15) == 0);
+    if ((i & 3) == 1) { check_embedded(&T, r, i >> 2); }
     tabs_free(&T);
 }
 
@@ -1066,6 +1111,8 @@ static void vf_case(uint64_t c, vf_rng *r)
                 uint64_t poly = vf_chance(r, 1, 3) ? st[vf_below(r, nstd)] : draw_poly(r, W[wi]);
                 tabs_build(&T, W[wi], poly);
                 check_message(&T, r, n, m + (unsigned)p.arg, m + wi, 6, 1);
+                check_embedded(&T, r, m);
+                check_embedded(&T, r, m + 1);
                 tabs_free(&T);
             }
         }
